@@ -1,6 +1,7 @@
 #!/usr/bin/env python3
 """tools/merge_sensitivity.py <part.md>: rows of an incremental pass (SENS_ONLY) replace / extend the rows of SENSITIVITY.md."""
-import re, sys
+import re, sys, functools, builtins
+open = functools.partial(builtins.open, encoding="utf-8", errors="surrogateescape")  # (signatures are cut at a byte count)
 main, part = "SENSITIVITY.md", sys.argv[1]
 def rows(path):
     out = {}
@@ -30,5 +31,5 @@ text = "".join(body)
 k = text.count("| KILLED |"); s = text.count("| SURVIVED |"); e = len(re.findall(r"\| (ERROR\(\d+\)|DOES-NOT-APPLY) \|", text))
 text += "\nTotals: %d killed, %d survived, %d errors.\n" % (k, s, e)
 text += "Rows merged from an incremental pass (%d rows, %s).\n" % (len(new), open(part).read().split("repository commit ")[1].split(".")[0] if "repository commit " in open(part).read() else "?")
-open(main, "w").write(text)
+builtins.open(main, "w", encoding="utf-8", errors="surrogateescape").write(text)
 print("merged", len(new), "rows; totals", k, s, e)
